@@ -100,6 +100,58 @@ BUILT = {
              "streams, end-dependent observations of infinite streams, permutations([]) / cycle([]) (C14) are outside.",
         technique="TLA+ cursor-state-machine + denotational spec (Streams/Index/BigNum) + TLC bounded model checking of "
                   "coherence invariants with replay of every state as an observation walk + TLC trace validation"),
+    "C03": dict(
+        cat="model_checking", design="DESIGN.md §4 C03",
+        text="Bounded model checking of an explicit shunting-evaluator state machine against two independent "
+             "definitions of operator-precedence grouping (recursive climbing, and the declarative loosest-operator "
+             "rule on the transitive fragment), for every chain of up to 3 (quick) / 4 (thorough) operators over "
+             "precedences {1,2,3,NaN}, both associativities and all chain-compatibility classes, in direct and "
+             "underscore-section mode; TLC checks tree equality, exactly-once left-to-right evaluation of operand and "
+             "operator expressions, and merge iff tighter-and-chains. Every finished model run whose operators exist "
+             "in the language is instantiated with real operators whose precedence is assigned at runtime and executed "
+             "four ways (direct, section, old section after reassignment, bare chain after swap/reassignment); results "
+             "and evaluation logs must equal the specification's. Random 5-9 operator chains over the default global "
+             "table (optionally after runtime precedence mutation) are trace-validated against Climb plus exact "
+             "arithmetic.",
+        note="Exhaustive only up to the stated bounds; right-associative chainable operators exist only in the model; "
+             "builtin-operator results reveal grouping only through values; about a quarter of trace events fall "
+             "outside the evaluated fragment and are accepted (counted in the evidence).",
+        technique="TLA+/TLC bounded model checking (machine = precedence climbing = declarative rule) + replay of every "
+                  "instantiable model run in the interpreter with runtime-assigned precedences + trace validation"),
+    "C04": dict(
+        cat="model_checking", design="DESIGN.md §4 C04",
+        text="A TLA+ model of call dispatch (primitives with their three one-argument behaviours, PA1/PA2/PALast/Flip "
+             "wrappers, call and chain sections, the call-or-partially-apply rule) on which TLC checks that every "
+             "application form named by the property denotes the same primitive call (FormsAgree: 26 function values "
+             "x arity 1-3 x data/function first argument x all forms); all 1,404 cases are executed in the "
+             "interpreter. The per-builtin obligation (vector, one-argument and two-argument entry points and "
+             "partial-application shortcuts agree) is established by trace validation: every global name bound to a "
+             "function (about 284 builtins and types after excluding I/O, clock, random, eval and reflection names, "
+             "plus user-defined functions) x argument tuples from a pool of all value kinds x all forms, grouped by "
+             "their denotation in the model; outcomes in a group must be the same canonical value or all fail, with "
+             "the property's preconditions read from logged outcomes.",
+        note="Argument tuples are pool-based (15 / 28 values), not exhaustive; equality is equality of the harness's "
+             "canonical projection; hash-ordered results compare as multisets. Known findings: the f(b)(a) clause fails "
+             "for the combinator builders &&&, ***, equals and for on-compositions.",
+        technique="TLA+/TLC model checking of the dispatch model + replay of all model cases + trace validation of "
+                  "grouped application-form events for every global function"),
+    "C05": dict(
+        cat="model_checking", design="DESIGN.md §4 C05",
+        text="Oracle: spec/Lang.tla, a big-step reference interpreter of the documented rules (static lexical scoping "
+             "with a fresh scope per call, per loop iteration and clause, per while iteration, per catch clause; := and "
+             "= rules; break/continue/return/throw as control results that loops, calls and try absorb or decrement; "
+             "yield, yield k: v, into with catamorphisms; short circuits; defaults and splats). TLC explores every "
+             "history of <=3 (quick) / 4 (thorough) statements over a 39-statement scoping/closure/loop vocabulary and "
+             "every transition is replayed in the real interpreter (value, printed output, outcome class, all tracked "
+             "globals). Trace validation: seeded random programs (nested multi-clause loops, guards, mid-loop "
+             "declarations, index iteration, multi-level break/continue with values, return, try/catch, logging "
+             "short-circuit leaves, closures escaping their scope or created per iteration, shadowing and "
+             "redeclaration) run statement by statement and are re-executed by the specification.",
+        note="eval, import, switch patterns (C12) and struct definitions are outside Lang; catch handlers in random "
+             "programs do not inspect the caught value (error text is unspecified); integers stay below 2^30. Trusted: "
+             "TLC, the source printer, harness projection.",
+        technique="TLA+ reference interpreter (Lang) + TLC bounded exploration of statement histories with replay of every "
+                  "transition + TLC trace validation of random programs"),
 }
 PENDING = "check not built yet in this round (planned, see DESIGN.md section 4 and 9)"
 ALL = ["C%02d" % i for i in range(1, 18)]
